@@ -1,6 +1,142 @@
+import Model.TypeStr
+import Model.FrameCrash
+import Model.RowsCrash
+import Model.Dispatch
+import Model.CrashValue
 import Driver.Util
 namespace Driver.C05
-/-- placeholder: replaced when the property's model is built -/
-def step (_ : Unit) (_ : List String) : Unit × String := ((), "unimplemented")
-def init : Unit := ()
+open Util
+
+/-- ops (answers are compared with the implementation's by the check driver):
+  ts   <hex>   metadata.go parseType               → ok:<result> | crash:<func>:<kind>
+  gct  <hex>   helpers.go getCassandraType (ASCII) → ok:<type tree>
+  gctx <hex>   the same on arbitrary bytes         → ok
+  gti / gtix <hex>  metadata.go getTypeInfo
+  a2c  <hex>   helpers.go apacheToCassandraType    → ok:<hex> -/
+def typeStr (fx : Bool) (ws : List String) : Option String :=
+  match ws with
+  | [op, h] =>
+    match parseHex h with
+    | none => if op ∈ ["ts", "gct", "gctx", "gti", "gtix", "a2c"] then some "bad-op" else none
+    | some bs =>
+      let s := TypeStr.bytesOfHex bs
+      match op with
+      | "ts" => some (TypeStr.renderOut TypeStr.renderResult (TypeStr.parseType fx s))
+      | "gct" => some (TypeStr.renderOut TypeStr.renderTy (TypeStr.getCassandraType s))
+      | "gctx" => some (TypeStr.renderOut (fun _ => "") (TypeStr.getCassandraType s) |>.dropEndWhile (· == ':') |>.toString)
+      | "gti" => some (TypeStr.renderOut TypeStr.renderTy (TypeStr.getTypeInfoFx fx s))
+      | "gtix" => some (TypeStr.renderOut (fun _ => "") (TypeStr.getTypeInfoFx fx s) |>.dropEndWhile (· == ':') |>.toString)
+      | "a2c" => some ("ok:" ++ TypeStr.hexOf (TypeStr.apacheToCassandraTypeFx fx s))
+      | _ => none
+  | _ => none
+
+/-- frame <proto> <resp 0|1> <flags> <op> <hex body> ; rows <proto> <flags> <hex body> ;
+    hdr <hex wire> ; body <proto> <length> <flags> <hex avail> -/
+def frameOps (fx : Bool) (ws : List String) : Option String :=
+  let bytes (h : String) : Option (List Nat) := (parseHex h).map (fun bs => bs.map (·.toNat))
+  match ws with
+  | ["frame", proto, resp, flags, op, h] =>
+    match proto.toNat?, resp.toNat?, flags.toNat?, op.toNat?, bytes h with
+    | some proto, some resp, some flags, some op, some body =>
+      if FrameCrash.bit flags 0 then some "err" else
+      some (match FrameCrash.parseFrame fx (proto % 128) (resp == 1) flags op body with
+        | .ok fr _ => "ok:" ++ fr.kind
+        | .err _ => "err"
+        | .crash s _ => "crash:" ++ s.label)
+    | _, _, _, _, _ => some "bad-op"
+  | ["deep", what, depth] =>
+    match depth.toNat? with
+    | some d => some (FrameCrash.deepOutcome fx what d)
+    | none => some "bad-op"
+  | ["prim", name] =>
+    some (FrameCrash.sourceFact fx name)
+  | ["falloc", proto, flags, op, h] =>
+    -- allocation class of one parse: the model counts the `make`/`string` calls sized from the wire
+    match proto.toNat?, flags.toNat?, op.toNat?, bytes h with
+    | some proto, some flags, some op, some body =>
+      some (match FrameCrash.parseFrame fx (proto % 128) true flags op body with
+        | .crash s _ => "crash:" ++ s.label
+        | r => if r.allocated < 2097152 then "alloc:small" else if r.allocated ≥ 50331648 then "alloc:big" else "alloc:mid")
+    | _, _, _, _ => some "bad-op"
+  | ["rows", proto, flags, h] =>
+    match proto.toNat?, flags.toNat?, bytes h with
+    | some proto, some flags, some body =>
+      if FrameCrash.bit flags 0 then some "err" else
+      some (match FrameCrash.parseFrame fx (proto % 128) true flags 8 body with
+        | .ok (.rows m n) st =>
+          (match RowsCrash.scanAll fx m n st.buf with
+           | .ok k => "ok:rows:" ++ toString k
+           | .capped => "ok:rows:capped"
+           | .err k => "err:rows:" ++ toString k
+           | .crash s => "crash:" ++ s.label)
+        | .ok fr _ => "ok:" ++ fr.kind
+        | .err _ => "err"
+        | .crash s _ => "crash:" ++ s.label)
+    | _, _, _ => some "bad-op"
+  | ["newrow", proto, flags, h] =>
+    match proto.toNat?, flags.toNat?, bytes h with
+    | some proto, some flags, some body =>
+      if FrameCrash.bit flags 0 then some "err" else
+      some (match FrameCrash.parseFrame fx (proto % 128) true flags 8 body with
+        | .ok (.rows m _) _ =>
+          (match RowsCrash.rowData m.cols 0 with
+           | .ok k => "ok:newrow:" ++ toString k
+           | .err => "err:newrow"
+           | .crashMapOf => "crash:goType:reflect"
+           | .crashAssert => "crash:goType:assert")
+        | .ok fr _ => "ok:" ++ fr.kind
+        | .err _ => "err"
+        | .crash s _ => "crash:" ++ s.label)
+    | _, _, _ => some "bad-op"
+  | ["hdr", h] =>
+    match bytes h with
+    | some wire =>
+      some (match FrameCrash.readHeader wire with
+        | .ok v fl st op ln => "ok:" ++ toString v ++ ":" ++ toString fl ++ ":" ++ toString st ++ ":" ++ toString op ++ ":" ++ toString ln
+        | .err => "err")
+    | none => some "bad-op"
+  | ["body", _proto, length, flags, h] =>
+    match length.toInt?, flags.toNat?, bytes h with
+    | some length, some flags, some avail =>
+      let cap (a : Nat) : String := toString (if a == 0 then FrameCrash.defaultBufSize else a)
+      some (match FrameCrash.readFrame length flags avail with
+        | .ok _ a => "ok:" ++ cap a
+        | .err a => "err:" ++ cap a)
+    | _, _, _ => some "bad-op"
+  | _ => none
+
+/-- driver state: which variant of the models answers — `false` = the code as it is (the default,
+what props/C05.json's theorems are about), `true` = the code with props/C05.fix-*.diff applied
+(Model/*Fixed.lean, Proofs/C05Fixed.lean). The op line `mode fixed` (emitted first by the harness when
+VERIF_C05_FIXED=1) switches; the integrator flips `init` after committing the fixes. -/
+def step (fx : Bool) (ws : List String) : Bool × String :=
+  match ws with
+  | ["mode", "fixed"] => (true, "mode:fixed")
+  | ["mode", "current"] => (false, "mode:current")
+  -- the end-to-end EVENT scenario (STATUS_CHANGE "UP", inet size 16, 2 bytes, on stream -1 of a live
+  -- v4 connection) is answered by the frame model: the witness of C05.C05_cex_frame_event_short_inet
+  | ["e2e", "event-short-inet"] =>
+    (fx, match FrameCrash.parseFrame fx 4 true 0 0x0C
+              [0, 13, 83, 84, 65, 84, 85, 83, 95, 67, 72, 65, 78, 71, 69, 0, 2, 85, 80, 16, 254, 128] with
+         | .crash .inetBody _ => "crash:framer.readInetAdressOnly:slice"
+         | .crash s _ => "crash:" ++ s.label
+         | .err _ => "parse-error"
+         | .ok _ _ => "survived")
+  | _ =>
+    (fx, match typeStr fx ws with
+       | some a => a
+       | none =>
+         match frameOps fx ws with
+         | some a => a
+         | none =>
+           -- disp / beh / disparms / dispctx / dispsites / dispkinds / dispfact / e2e: Model/Dispatch.lean
+           match Dispatch.answerFx fx ws with
+           | some a => a
+           | none =>
+             -- val <proto> <type> <dest> <hex|nil|->: Model/CrashValue.lean
+             match CrashValue.answerFx fx ws with
+             | some a => a
+             | none => "bad-op")
+
+def init : Bool := false
 end Driver.C05
